@@ -27,6 +27,7 @@ struct C16Redeliver : Monitor {
 		bool processed = false, answered = false; Bytes answer; uint64_t n_data_after = 0, n_ping_after = 0; uint64_t t = 0;
 		bool tracked = false;
 		std::string name_as_received; uint16_t id_as_received = 0;   // after the path's transformation
+		Dgram as_received;                                            // the datagram the server picked up (for triggered re-deliveries)
 	};
 	std::map<uint64_t, Orig> origs;                 // by serial, client->server p/d queries
 	std::deque<uint64_t> recent;                    // serials in arrival order (bounded)
@@ -125,7 +126,8 @@ struct C16Redeliver : Monitor {
 		// the model of the 4-entry answer cache: a fresh tunnel answer enters it; an answer equal to an entry is a replay
 		{
 			bool replay = false;
-			for (auto &c : cache) if (c.first == qn && c.second == pl) replay = true;
+			// (the second answer to a remembered re-cased duplicate carries the duplicate's spelling: same entry)
+			for (auto &c : cache) if (c.second == pl && c.first.size() == qn.size() && !strcasecmp(c.first.c_str(), qn.c_str())) replay = true;
 			if (!replay) { cache.push_back({qn, pl}); if (cache.size() > 4) cache.pop_front(); }
 		}
 		// mark the oldest matching unanswered original as answered
@@ -157,7 +159,7 @@ struct C16Redeliver : Monitor {
 			// the original (as transformed by the path) reaches the server
 			if (it != origs.end()) {
 				Orig &o = it->second;
-				o.processed = true; o.name_as_received = cur.name; o.id_as_received = cur.id;
+				o.processed = true; o.name_as_received = cur.name; o.id_as_received = cur.id; o.as_received = d;
 			}
 			return;
 		}
@@ -185,6 +187,7 @@ struct C16Redeliver : Monitor {
 		// queries, not by processing a re-delivered one: runs in which the limit was reached only demand order downstream.
 		for (int u = 0, n = peek_nusers(); u < n; u++) { UserView v; if (peek_user(u, v) && v.active && v.outfragresent >= 5) w->probes["c16.client_discarded_nonrecent"]++, w->probes["c16.server_resend_limit_reached"]++; }
 		finish_step();
+		triggered_redelivery();
 		step_n = 0; step_tun = false; step_is_redeliv = false; have_before = false;
 	}
 
@@ -225,6 +228,42 @@ struct C16Redeliver : Monitor {
 		}
 	}
 
+	// Fault placement inside an in-flight state: the moment the server parks a query in its 20 ms "send real soon" slot (or holds
+	// one in lazy mode), an impatient relay repeats exactly that query 0.3-19 ms later (verbatim or with a new id).
+	std::map<int, int> last_qsrs, last_q; uint64_t ntrig = 0;
+	void triggered_redelivery()
+	{
+		double p = w->cfg["faults"].getd("p_trigger_dup");
+		if (p <= 0 || !w->all_in_tunnel) return;
+		uint64_t tf1 = w->T0 + (uint64_t)w->cfg["faults"].geti("t1_us");
+		if (w->S.now > tf1) return;
+		for (int u = 0, n = peek_nusers(); u < n; u++) {
+			UserView v;
+			if (!peek_user(u, v) || !v.active) continue;
+			int targets[2] = {0, 0};
+			if (v.qsrs_id && v.qsrs_id != last_qsrs[u]) targets[0] = v.qsrs_id;
+			if (v.q_id && v.q_id != last_q[u] && v.lazy) targets[1] = v.q_id;
+			last_qsrs[u] = v.qsrs_id; last_q[u] = v.q_id;
+			for (int k = 0; k < 2; k++) {
+				if (!targets[k]) continue;
+				uint64_t key = ++ntrig;
+				if (w->S.U("trig.dup", key) >= (k == 0 ? p : p * 0.3)) continue;
+				// the original of that query
+				const Orig *o = nullptr;
+				for (auto it = recent.rbegin(); it != recent.rend(); ++it) { auto f = origs.find(*it); if (f != origs.end() && f->second.processed && f->second.id_as_received == (uint16_t)targets[k] && f->second.uid == u) { o = &f->second; break; } }
+				if (!o) continue;
+				Dgram c = o->as_received; c.redelivery = true;
+				if (w->S.U("trig.newid", key) < 0.5 && c.data.size() >= 2) {
+					uint16_t oid = (uint16_t)((c.data[0] << 8) | c.data[1]), id = (uint16_t)(oid ^ (1 + w->S.D("trig.idv", key) % 65535)); if (!id) id = 1;
+					c.data[0] = id >> 8; c.data[1] = id & 255; w->S.rd_idmap[{c.src.str(), id}] = oid;
+				}
+				uint64_t dt = k == 0 ? w->S.R("trig.dt", key, 300, 19000) : w->S.R("trig.dt", key, 300, 400000);
+				Sim *S = &w->S;
+				S->at(S->now + dt, [S, c]() { if (S->redeliver_gate && !S->redeliver_gate(c)) return; S->deliver(c); });
+				w->S.count(k == 0 ? "fault.redeliver.in_realsoon_window" : "fault.redeliver.of_held_query");
+			}
+		}
+	}
 	void on_end() override
 	{
 		w->probes["c16.tracked"] = (int64_t)origs.size();
